@@ -1888,7 +1888,15 @@ class BreakAction(Action, HasDefaultDebugInfo):
         return True
 
     def get_target_override_targets(self):
-        return [self.refers_to.end_state]
+        # The loop's end state, plus wherever the actions that run on the way out may jump to (e.g. the out-of-space
+        # handler of a character append that follows the loop), since those are not on any transition themselves.
+        targets = [self.refers_to.end_state]
+        for action in self.refers_to.after_break_actions:
+            for subaction in action.all_subactions():
+                for target in subaction.get_target_override_targets():
+                    if target not in targets:
+                        targets.append(target)
+        return targets
 
     def get_target_override_mode(self):
         return ActionOverrideMode.ALWAYS_GOTO_OTHER
